@@ -6,6 +6,7 @@ import (
 	"fmt"
 	"os"
 	"os/exec"
+	"regexp"
 	"sort"
 	"strings"
 	"sync"
@@ -120,6 +121,36 @@ var c12Calls = []c12Call{
 				p.Printf("%v", redact.Unsafe(panStrT{panPayT{"x"}}))
 			})))
 		})
+	}},
+	{"triple panic through a nested Print under Safe() (propagates)", func() string {
+		return guard(func() string {
+			return string(redact.Sprintf("r: %v", redact.Safe(scriptedFn(func(p redact.SafePrinter) {
+				p.SafeString("hd ")
+				p.Print("n", panStrT{npPayDeep{"x"}})
+			}))))
+		})
+	}},
+	{"triple panic through a nested Printf (propagates)", func() string {
+		return guard(func() string {
+			return string(redact.Sprintf("r: %v", scriptedFn(func(p redact.SafePrinter) {
+				p.UnsafeString("hd ")
+				p.Printf("%v|%d", panErrT{npPayDeep{"x"}}, 7)
+			})))
+		})
+	}},
+	// directives that differ only in "precision 0" against "no precision" (and a width), forwarded with MakeFormat:
+	// anything that memoises per directive must key on whether the number was given
+	{"forwarded directives without precision", func() string {
+		return string(redact.Sprintf("%f|%x|%-s|%+v|%5e", forwarder{3.14159}, forwarder{"hi"}, forwarder{"hi"}, forwarder{structT{1, "p", 2.5}}, forwarder{2.5}))
+	}},
+	{"forwarded directives with precision 0", func() string {
+		return string(redact.Sprintf("%.0f|%.0x|%-.0s|%+.0v|%5.0e", forwarder{3.14159}, forwarder{"hi"}, forwarder{"hi"}, forwarder{structT{1, "p", 2.5}}, forwarder{2.5}))
+	}},
+	{"wrappers through fmt without precision", func() string {
+		return fmt.Sprintf("%f|%x|%08v", redact.Safe(3.14159), redact.Unsafe("hi"), redact.Safe(7))
+	}},
+	{"wrappers through fmt with precision 0", func() string {
+		return fmt.Sprintf("%.0f|%.0x|%08.0v", redact.Safe(3.14159), redact.Unsafe("hi"), redact.Safe(7))
 	}},
 	{"SafeFormatter panics after nested Print", func() string {
 		return string(redact.Sprintf("%v", scriptedFn(func(p redact.SafePrinter) { p.Print("n", redact.Safe(1)); panic("late") })))
@@ -769,6 +800,48 @@ func crumb(s string) {
 	c12Crumb.WriteAt(b, 0)
 }
 
+// c12IsoRef: the results of call i in a process in which NO other call has run (printed as JSON). The references
+// of c12Init are computed one after the other in one process; state kept outside the printer pool that is set by
+// the FIRST call that needs it (a memo table) is the same in every history of that process and can only be seen
+// by comparing with a process that made a different first call.
+func c12IsoRef(i int) int {
+	dblSafeRegister()
+	c12Sched.ch = c12Ch
+	buffer.VerifYield = func() { c12Sched.Point("write") }
+	vsync.SetController(c12Pool)
+	c12Ch.quiet = true
+	c12Pool.cold = true
+	vsync.Clear()
+	var out [2]string
+	out[0] = clone(c12Calls[i].Run())
+	redact.RegisterRedactErrorFn(c02Hook)
+	vsync.Clear()
+	out[1] = clone(c12Calls[i].Run())
+	json.NewEncoder(os.Stdout).Encode(out)
+	return 0
+}
+
+var c12AddrRe = regexp.MustCompile(`0xc[0-9a-f]{8,11}`)
+
+// c12IsoCompare runs call i alone in a fresh process and compares with the references of this process.
+func c12IsoCompare(i int) string {
+	cmd := exec.Command(os.Args[0], "worker", "C12ISO", fmt.Sprint(i))
+	cmd.Env = append(os.Environ(), "GOMAXPROCS=2")
+	outb, err := cmd.Output()
+	var iso [2]string
+	if err != nil || json.Unmarshal(outb, &iso) != nil {
+		return fmt.Sprintf("isolated process for call %q failed: %v", c12Calls[i].Name, err)
+	}
+	norm := func(s string) string { return c12AddrRe.ReplaceAllString(s, "0xADDR") }
+	if norm(iso[0]) != norm(c12RefsNoHook[i]) {
+		return fmt.Sprintf("call %q returns %q in a process where it is the first call, but %q from a cold pool after the calls before it in the alphabet have run: its result depends on earlier calls through state kept outside the printer pool", c12Calls[i].Name, iso[0], c12RefsNoHook[i])
+	}
+	if norm(iso[1]) != norm(c12RefsHook[i]) {
+		return fmt.Sprintf("with the error hook, call %q returns %q in a process where it is the first call, but %q after the other calls have run", c12Calls[i].Name, iso[1], c12RefsHook[i])
+	}
+	return ""
+}
+
 func c12Worker(args []string) int {
 	if p := os.Getenv("VERIF_C12_CRUMB"); p != "" {
 		c12Crumb, _ = os.Create(p)
@@ -1117,6 +1190,12 @@ func init() {
 		}
 		return c12EndEval(al, cs.Ops, cs.Route, cs.Probe, c12EndRefs())
 	}
+	replayers["C12/isolated-references"] = func(c *Ctx, raw json.RawMessage) string {
+		var cs struct{ Call int }
+		json.Unmarshal(raw, &cs)
+		c12Init()
+		return c12IsoCompare(cs.Call)
+	}
 	replayers["C12/schedules"] = func(c *Ctx, raw json.RawMessage) string {
 		var cs c12SchedCase
 		json.Unmarshal(raw, &cs)
@@ -1216,6 +1295,14 @@ func checkC12(c *Ctx) {
 		depth = 4
 	}
 	c12EndStates(c)
+	c12Init()
+	c.Section("C12/isolated-references", map[string]interface{}{"calls": len(c12Calls), "processes": "one fresh process per call, in which it is the first call made", "oracle": "equal to the reference computed after the preceding calls of the alphabet"}, len(c12Calls), func(i int, w *Worker) {
+		w.Eval()
+		if d := c12IsoCompare(i); d != "" {
+			w.Fail("isolated-reference", map[string]interface{}{"Call": i, "Name": c12Calls[i].Name}, d)
+		}
+		w.SeenS(c12RefsNoHook[i])
+	})
 	st, errs := runWorkers(c, "hist", nw, budget)
 	record("C12/histories", st, errs, map[string]interface{}{"calls": len(c12Calls), "history_depth": depth, "pool_bound": vsync.Cap, "pool_answers": "every Get: any pooled printer or a new one"})
 	st, errs = runWorkers(c, "hist+hook", nw, budget)
